@@ -885,6 +885,11 @@ public:
         auto init_inv = init;
         if (is_root) {
           is_root = false;
+          if (is_recursive) {
+            // The root is called recursively: init does not describe
+            // its recursive activations (see above).
+            init_inv = m_call_tbl.get_call_ctx(fdecl);
+          }
         } else {
           init_inv = m_call_tbl.get_call_ctx(fdecl);
         }
